@@ -15,6 +15,7 @@ import UnytModel.Generated.Tables
 import UnytModel.Generated.C14Base
 import UnytModel.Generated.C14Rows
 import UnytModel.Generated.C14Tree
+import UnytModel.Generated.C14Gen
 
 namespace Unyt.C14
 open Unyt Unyt.Names Unyt.Generated.C14
@@ -299,5 +300,48 @@ def generateDefault : Except (Name × Name) NameGen.Result :=
   match NameGen.generate genInputs with
   | .ok outs => .ok (NameGen.resultOf outs)
   | .error e => .error e
+
+/-! ### the loop body of the generator, key by key, against the regenerated output -/
+
+/-- was the name appended before position `a` of `inv_name_alternatives`? -/
+def before (a : Nat) (n : Name) : Bool :=
+  match posTree.get? n with
+  | some p => Nat.blt p a
+  | none => false
+
+/-- the state the real generator had built when it reached the table key whose own name sits at
+    position `a`: `seen` = the names listed before `a`; `names[nk]` = the members of
+    `name_alternatives[nk]` listed before `a` -/
+def viewAt (a : Nat) : NameGen.View :=
+  { seen := before a,
+    names := fun nk => ((namesOutT.get? nk).getD []).filter (before a) }
+
+/-- the `j`-th append of the model is the `a+j`-th entry of the real tables, with the same
+    canonical name and under the same listing key -/
+def outsOk (a : Nat) : Nat → List NameGen.Out → Bool
+  | _, [] => true
+  | j, o :: r =>
+    (match posTree.get? o.name, invTree.get? o.name with
+     | some p, some (ok, nk) => Nat.beq p (a + j) && Nat.beq ok o.okey && Nat.beq nk o.nkey
+     | _, _ => false) && outsOk a (j + 1) r
+
+/-- the body of the generator's outer loop for the `i`-th table key, started in the state the real
+    generator had at that point, appends exactly the entries the real generator appended there -/
+def genKeyOk (i : Nat) : Bool :=
+  match lutC[i]?, keyStarts[i]?, keyStarts[i + 1]? with
+  | some (key, e), some a, some b =>
+    (match NameGen.genKey genInputs (viewAt a) key e.prefixable with
+     | .ok outs => outs.length == b - a && outsOk a 0 outs
+     | .error _ => false)
+  | _, _, _ => false
+
+/-- table keys number i ≡ k (mod 16) -/
+def keysOfChunk (k : Nat) : List Nat := (List.range lutC.length).filter fun i => i % 16 == k
+
+def genChunkOk (k : Nat) : Bool := (keysOfChunk k).all genKeyOk
+
+/-- the key positions are the whole table: as many starts as keys (+1), first 0, last the size -/
+def keyStartsOk : Bool :=
+  keyStarts.length == lutC.length + 1 && keyStarts.head? == some 0 && keyStarts.getLast? == some invCount
 
 end Unyt.C14
